@@ -524,12 +524,26 @@ func TestC09(t *testing.T) {
 		for _, a := range vocab.StructTypes {
 			for _, b := range vocab.StructTypes {
 				for _, full := range []bool{false, true} {
-					for _, variant := range []string{"ids-differ", "types-differ"} {
+					for _, variant := range []string{"ids-differ", "types-differ", "ids-differ-host", "ids-differ-port", "ids-differ-query", "ids-differ-query-value", "ids-differ-repeated-key", "ids-differ-repeated-key-multiset"} {
 						if a.Name() == "Link" || b.Name() == "Link" {
 							continue // the clause speaks of objects
 						}
 						ta, tb := vocab.DefaultType[a.Name()], vocab.DefaultType[b.Name()]
 						ida, idb := "https://example.com/things/1", "https://example.com/things/2"
+						switch variant {
+						case "ids-differ-host":
+							ida, idb = "https://example.com/things/1", "https://example.org/things/1"
+						case "ids-differ-port":
+							ida, idb = "https://example.com/things/1", "https://example.com:8443/things/1"
+						case "ids-differ-query":
+							ida, idb = "https://example.com/things/1", "https://example.com/things/1?page=1"
+						case "ids-differ-query-value":
+							ida, idb = "https://example.com/things/1?page=1", "https://example.com/things/1?page=2"
+						case "ids-differ-repeated-key":
+							ida, idb = "https://example.com/things/1?tag=a", "https://example.com/things/1?tag=a&tag=b"
+						case "ids-differ-repeated-key-multiset":
+							ida, idb = "https://example.com/things/1?x=1&x=1", "https://example.com/things/1?x=1&x=2"
+						}
 						if variant == "types-differ" {
 							idb = ida
 							if ta == tb {
